@@ -21,6 +21,7 @@ FATAL = {
     "C11": {"always": ("CapOK", "WithCap", "ReservePost", "NoReallocInCap"), "must_exercise": ("WithCap", "ReservePost", "NoReallocInCap")},
     "C12": {"always": ("Growth",), "must_exercise": ("Growth",)},
     "C13": {"always": ("ShrinkPost",), "must_exercise": ("ShrinkPost",)},
+    "C04": {},
     "C18": {"always": ("CallbackPanicOK",), "when": {"cbpanic": ("RcOK", "BlocksOK", "EndClean", "TextOK", "Isolation", "Abort")},
             "shim": MEMSHIM, "shim_when": "cbpanic", "must_exercise": ("CallbackPanicOK",)},
 }
@@ -43,6 +44,11 @@ def drive(name, histories, ops, mode="mixed", files=8):
 CORE3, CORE4 = mc("MC_Core_d3"), mc("MC_Core_d4")
 SEED2, FAIL2, SIZES2, IDX1 = mc("MC_Seeded_d2"), mc("MC_Fail_d2"), mc("MC_Sizes_d2"), mc("MC_Idx_d1")
 
+def conc(name, threads, configs, **kw):
+    d = {"kind": "conc", "name": name, "threads": threads, "configs": configs}
+    d.update(kw)
+    return d
+
 def dq(mode): return drive("q-" + mode, 10, 120, mode, 8)      # ~10 k records
 def dt(mode): return drive("t-" + mode, 40, 250, mode, 16)     # ~160 k records
 
@@ -50,6 +56,8 @@ PROFILES = {
     "C01": {"quick": [CORE4, SEED2, dq("mixed")], "thorough": [CORE4, SEED2, dt("mixed"), dt("all")]},
     "C02": {"quick": [CORE3, SEED2, FAIL2, SIZES2, dq("all")], "thorough": [CORE4, SEED2, FAIL2, SIZES2, dt("all")]},
     "C03": {"quick": [CORE3, SEED2, FAIL2, dq("all")], "thorough": [CORE4, SEED2, FAIL2, SIZES2, dt("all")]},
+    "C04": {"quick": [conc("own2", "{1,2}", "cQuick2", sample_every=200), conc("lend3", "{1,2,3}", "cLend2", sample_every=200)],
+            "thorough": [conc("own2", "{1,2}", "cQuick2", sample_every=100), conc("lend3", "{1,2,3}", "cLend2", sample_every=100), conc("own3", "{1,2,3}", "cOwn3", sample_every=400)]},
     "C05": {"quick": [FAIL2, dq("fail")], "thorough": [FAIL2, dt("fail")]},
     "C06": {"quick": [SIZES2, dq("sizes")], "thorough": [SIZES2, dt("sizes")]},
     "C07": {"quick": [IDX1, CORE3, dq("mixed")], "thorough": [IDX1, CORE4, dt("mixed")]},
@@ -81,3 +89,10 @@ CLAIMS = {
     "C18": {"text": "Every panic position of retain predicates and extend/collect iterators in every seeded storage state: text equals the String oracle's after the same panic, others untouched, nothing leaked (shadow heap).", "note": _SEQ_NOTE, "ref": "DESIGN.md 5 C18"},
 }
 NOT_YET = {}
+
+CLAIMS["C04"] = {
+    "text": "TLC explores every interleaving and every C11-permitted stale load of 2-3 thread programs (clone/read/drop/push/reserve/truncate/clear/shrink, owned and borrowed handles) on a micro-step model with a vector-clock release/acquire memory model, instantiated with the micro-step shape and the memory orderings OBSERVED from the code; every finished execution's schedule is replayed on gated real threads under the shadow heap, each thread's results are compared with its sequential String shadow, and the recorded event logs are judged by a shape-free happens-before monitor (TLC trace validation).",
+    "note": "Trusted: TLC, the memory-model operators of Conc.tla (release/acquire fragment with release sequences and fences; no consume, no SC fences), the hooks reporting every atomic with its ordering, the gating harness. Real executions are sequentially consistent: weak-memory behaviours are decided in the model only. Bounded: 2 threads x <=2 ops (+drops), 3 threads with a lent handle, 3 threads x 1 op in the thorough tier.",
+    "ref": "DESIGN.md 3.5, 5 C04",
+    "technique": "explicit TLA+ micro-step specification with a vector-clock C11 model checked by TLC; TLC-generated schedules replayed on gated real threads; happens-before trace validation of the recorded events",
+}
